@@ -248,14 +248,14 @@ func (tree *Tree[T]) match(ctx *types.Context) *node[T] {
 func (tree *Tree[T]) Handler(ctx *types.Context, method string) (types.Node, T, bool) {
 	ctx.SetRouterName(tree.Name())
 
-	if tree.hasTrace && method == http.MethodTrace {
-		return tree.node, tree.trace, true
-	}
-
-	// 节点的查找以及对 node.handlers 的读取必须在同一个锁的范围之内
+	// 节点的查找以及对 node.handlers、trace 和 notFound 的读取必须在同一个锁的范围之内
 	if tree.locker != nil {
 		tree.locker.RLock()
 		defer tree.locker.RUnlock()
+	}
+
+	if tree.hasTrace && method == http.MethodTrace {
+		return tree.node, tree.trace, true
 	}
 
 	var node *node[T]
@@ -345,6 +345,12 @@ func (tree *Tree[T]) URL(buf *errwrap.StringBuilder, pattern string, ps map[stri
 
 // ApplyMiddleware 为已有的路由项添加中间件
 func (tree *Tree[T]) ApplyMiddleware(ms ...types.Middleware[T]) {
+	// 会改写 notFound、trace 以及所有节点的处理函数，与 Add 一样需要写锁。
+	if tree.locker != nil {
+		tree.locker.Lock()
+		defer tree.locker.Unlock()
+	}
+
 	tree.notFound = ApplyMiddleware(tree.notFound, "", "", tree.Name(), ms...)
 	if tree.hasTrace {
 		tree.trace = ApplyMiddleware(tree.trace, http.MethodTrace, "", tree.Name(), ms...)
